@@ -477,6 +477,10 @@ func permutations(n int) [][]int {
 func genConcPlan(r *rand.Rand, tier string) *vfPlan {
 	p := &vfPlan{Cfg: vfCfg{TOTP: true, VIP: true, BootstrapOTP: true, PwBackend: "counting",
 		CertBackends: []string{"U2F", "TOTP", "SymantecVIP"}, WebUIBackends: []string{"U2F", "TOTP", "password", "SymantecVIP", "BootstrapOTP"}}}
+	okta := chance(r, 0.2)
+	if okta {
+		p.Cfg.PwBackend = "okta"
+	}
 	add := func(s vfStep) { p.Steps = append(p.Steps, s) }
 	// alice: TOTP + two hardware tokens; bob: one token; carol-like "newbie": bootstrap OTP only
 	add(vfStep{Op: "setup_totp", User: "alice"})
@@ -544,6 +548,41 @@ func genConcPlan(r *rand.Rand, tier string) *vfPlan {
 		n = 3
 	}
 	var group []vfStep
+	if okta && chance(r, 0.7) {
+		// the Okta authenticator keeps per-user session state of its own: logins, code checks and push polls of one
+		// or two users at once, with fresh or lapsed (5 minutes) Okta sessions
+		if chance(r, 0.5) {
+			add(vfStep{Op: "oktapushstart", Sess: "a1"})
+			if chance(r, 0.7) {
+				add(vfStep{Op: "okta_device", User: "alice", A: pick(r, []string{"approve", "approve", "deny"})})
+			}
+		}
+		if chance(r, 0.5) {
+			add(vfStep{Op: "advance", D: pick(r, []string{"4m", "5m2s", "6m"})})
+		}
+		oc := []vfStep{{Op: "oktaotp", Sess: "a1", A: "cur"}, {Op: "oktaotp", Sess: "a2", A: "cur"}, {Op: "oktapoll", Sess: "a1"}, {Op: "oktapoll", Sess: "a2"}, {Op: "oktapushstart", Sess: "a2"},
+			{Op: "login", Sess: "a1x", User: "alice"}, {Op: "login", Sess: "b1x", User: "bob"}, {Op: "oktapoll", Sess: "b1"}, {Op: "oktaotp", Sess: "b1", A: "cur"}, {Op: "login", Sess: "a2x", User: "alice", A: "wrong"}}
+		for len(group) < n {
+			c := pick(r, oc)
+			dup := false
+			for _, g := range group {
+				if g.String() == c.String() {
+					dup = true
+				}
+			}
+			if !dup {
+				group = append(group, c)
+			}
+		}
+		for i := range group {
+			group[i].Par = 1
+		}
+		p.Steps = append(p.Steps, group...)
+		for i := 0; i < 40; i++ {
+			p.Tape = append(p.Tape, r.IntN(6))
+		}
+		return p
+	}
 	switch r.IntN(12) {
 	case 0:
 		// the same one-time TOTP code presented by two sessions at once
